@@ -22,6 +22,12 @@ def norm(n):
     return " ".join(ast.unparse(n).split())
 
 
+def slice_text(sub):
+    """text of the index of a Subscript node, e.g. ':, 0:3'"""
+    whole, base = ast.unparse(sub), ast.unparse(sub.value)
+    return " ".join(whole[len(base) + 1:-1].split())
+
+
 class Model:
     def __init__(self, root=None):
         self.root = root or REPO
